@@ -36,3 +36,35 @@ Theorem C01_flags_are_consensus :
   ANNOUNCE_LIMIT = Spec.ANNOUNCE_LIMIT /\ ELIGIBLE_FOR_DEDUP = Spec.ELIGIBLE_FOR_DEDUP /\
   HAS_RELATIVE_CONDITION = Spec.HAS_RELATIVE_CONDITION /\ ELIGIBLE_FOR_FF = Spec.ELIGIBLE_FOR_FF.
 Proof. exact flags_are_consensus. Qed.
+
+(* ---- stages S2/S3 (in progress): syntax / semantics split and the deferred validation ---- *)
+From ChiaV.Cond Require Import Invariants Syntax Collect Rules Refine.
+
+(* S2: parse_spends = syntax (the tree denotes spends with parsed conditions; depends only on the tree
+   and the strictness flags) followed by semantics on the parsed bundle; both directions *)
+Theorem C01_syntax_then_semantics : forall vk H K fl V t max_cost clvm_cost r,
+  parse_spends vk H K fl V t max_cost clvm_cost = Ok r <->
+  exists ps, tree_syntax fl t = Ok ps /\ bundle_sem vk H K fl V ps max_cost clvm_cost = Ok r.
+Proof. exact parse_spends_split. Qed.
+
+(* S3, deferred stage: after all spends and conditions have been applied, the bundle passes the
+   deferred validation EXACTLY when: no value is minted and the reserved fee is covered, the absolute
+   before/after locks are compatible, and every cross-spend assertion has its counterpart in the
+   bundle — concurrent spend / puzzle, coin / puzzle announcements (id = H(coin id or puzzle hash ++
+   message)), ASSERT_EPHEMERAL on a coin created by another spend of the bundle, no relative or birth
+   condition on such a coin, and every message key sent as often as received *)
+Theorem C01_deferred_validation_iff : forall vk H K fl V ps max_cost clvm_cost ret state cl,
+  spends_sem vk H K fl V ps empty_bundle empty_state max_cost
+             (if f_limit_spends fl then Some MAX_SPENDS_PER_BLOCK else None) clvm_cost = Ok (ret, state, cl) ->
+  (validate_conditions H ret (post_process H V (fast_rev (b_spends_rev ret)) state) state = Ok tt <->
+   b_addition ret + b_reserve_fee ret <= b_removal ret /\
+   match b_before_height_absolute ret with Some bh => b_height_absolute ret < bh | None => True end /\
+   match b_before_seconds_absolute ret with Some bs => b_seconds_absolute ret < bs | None => True end /\
+   CrossRules H ps).
+Proof. exact deferred_stage_iff. Qed.
+
+(* whatever parse_spends accepts parses into a bundle satisfying every cross-spend rule *)
+Theorem C01_accepted_satisfies_cross_rules : forall vk H K fl V t max_cost clvm_cost r,
+  parse_spends vk H K fl V t max_cost clvm_cost = Ok r ->
+  exists ps, tree_syntax fl t = Ok ps /\ CrossRules H ps.
+Proof. exact accepted_satisfies_cross_rules. Qed.
